@@ -194,10 +194,10 @@ Proof.
   - exact I.
 Qed.
 (* the plain view that comes back: centisecond times, the run texts of every line put together *)
-Example ex_sv_plain :
-  ptrunc 1000000 (ptrunc ssa_unit (ssa_to_plain ex_sv_doc)) =
+Definition ex_sv_expected : plain :=
   [ (1230000000%Z, 2500000000%Z, [s2l "Hello brave new world & <co>"%string; s2l "second line"%string]);
     (3000000000%Z, 4000000000%Z, [s2l "x > y"%string]) ].
+Example ex_sv_plain : ptrunc 1000000 (ptrunc ssa_unit (ssa_to_plain ex_sv_doc)) = ex_sv_expected.
 Proof. vm_compute. reflexivity. Qed.
 Example ex_sv_roundtrip :
   exists ssa vtt d', write_ssa ex_sv_doc (style_keys ex_sv_doc) = Ok ssa /\ convert_ssa_vtt ssa = Ok vtt /\ read_vtt vtt = Ok d' /\
